@@ -264,11 +264,13 @@ def Reconciler.extendPause (r : Reconciler) (increment : Int) : Res Reconciler :
       else .ok r
     | _ => .panic
 
-/-- `MakeResult()`: the edited text, if it still parses; also the re-parsed target record. -/
-def Reconciler.makeResult (r : Reconciler) : Option (Bytes × Record) :=
+/-- `MakeResult()`: the edited text, if it still parses; also the re-parsed target record.
+`.panic`: the safeguard's own parser run panics (a 20-digit number in the inserted text, D1). -/
+def Reconciler.makeResult (r : Reconciler) : Res (Bytes × Record) :=
   let text := joinLines r.lines
   match parseDoc text with
-  | .records rs _ => (rs[r.recIdx]?).map (fun rec => (text, rec))
-  | _ => none
+  | .records rs _ => (match rs[r.recIdx]? with | some rec => .ok (text, rec) | none => .panic)
+  | .errors _ => .err
+  | .panic => .panic
 
 end KlogV
